@@ -57,6 +57,9 @@ Ok == <<>>
 
 \* C07 applies to iff/xor-free Boolean formulas under the standard semantics whose predicates are defined
 SignApplies(p) == p.op # "null" /\ IsBoolFormula(p) /\ ~HasOp(p, {"iff", "xor"})
+\* explain(): "violated" is negative robustness whatever stands in verdict position (-(p and q), x - 3); an alternative trace
+\* counts as satisfying only when its robustness is strictly positive (SatisfiedAt0)
+ExplSignApplies(p) == p.op # "null" /\ ~HasOp(p, {"iff", "xor"})
 Dist(a, b) == IF a >= b THEN a - b ELSE b - a
 
 \* result of applying one event: [m |-> new object record, o |-> new observation record,
@@ -214,11 +217,11 @@ ApplyExplain(m, o0, e, step) ==
   LET f0 == ExcClass(TRUE, e, "explain.exc", step)
       N == Len(m.ts) vs == m.cfg.vars W == m.hist
       rho1 == m.offOut[1]
-      o == IF f0 = Ok /\ m.phase = "offline" /\ SignApplies(m.phi) /\ rho1 # Undef
+      o == IF f0 = Ok /\ m.phase = "offline" /\ ExplSignApplies(m.phi) /\ rho1 # Undef
            THEN ExplainModel(m, o0, e) ELSE o0 IN
   \* "violated at time 0" is rtamt's own notion: negative robustness (explain() does nothing otherwise); robustness 0
   \* is neither (skipped); iff / xor are outside the fragment in which the sign of the robustness decides satisfaction
-  IF f0 # Ok \/ m.phase # "offline" \/ ~SignApplies(m.phi) \/ rho1 = Undef \/ rho1 = 0 \/ HasUndef(m.offOut)
+  IF f0 # Ok \/ m.phase # "offline" \/ ~ExplSignApplies(m.phi) \/ rho1 = Undef \/ rho1 = 0 \/ HasUndef(m.offOut)
   THEN R(m, o, f0, 0)
   ELSE IF rho1 > 0 THEN
        (IF \A v \in vs : Reported(e, v) = {} THEN R(m, o, Ok, 0)
